@@ -41,9 +41,14 @@ func strArg(v Val) string {
 	return "?"
 }
 
+var extraIntrinsics []func(ex *Executor)
+
 func registerIntrinsics(ex *Executor) {
 	I := ex.Intr
 	registerExtlib(ex)
+	for _, f := range extraIntrinsics {
+		f(ex)
+	}
 	// ---- harness ----
 	nd := func(kind string, sort smt.Sort) Intrinsic {
 		return func(ex *Executor, st *State, cc *CallCtx, args []Val) (Val, ctl) {
